@@ -45,11 +45,28 @@ type Client struct {
 	streams      int
 	// Buffer is the per-stream message buffer (emulates transport flow-control window).
 	Buffer int
+
+	failHits []FailHit
+	// lastBookmark[stream] is the bookmark of the last event of the last message delivered on that Watch stream
+	// (nil if that event carried none) and delivered[stream] the number of data messages delivered.
+	lastBookmark map[int][]byte
+	delivered    map[int]int
 }
+
+// FailHit records an injected Recv failure that actually happened.
+type FailHit struct {
+	Stream, Index int
+	// LastBookmark is what the client had as resume point when the failure hit (nil = none).
+	LastBookmark []byte
+	Delivered    int
+}
+
+// FailHits returns the injected failures that were actually hit.
+func (c *Client) FailHits() []FailHit { c.mu.Lock(); defer c.mu.Unlock(); return append([]FailHit(nil), c.failHits...) }
 
 // New creates a loopback client around a server implementation.
 func New(srv v1alpha1.StateServer) *Client {
-	return &Client{Srv: srv, hidden: map[string]bool{}, calls: map[string]int{}, failRecvAt: map[int]map[int]codes.Code{}, Buffer: 16}
+	return &Client{Srv: srv, hidden: map[string]bool{}, calls: map[string]int{}, failRecvAt: map[int]map[int]codes.Code{}, Buffer: 16, lastBookmark: map[int][]byte{}, delivered: map[int]int{}}
 }
 
 // Hide makes an RPC answer Unimplemented.
@@ -213,6 +230,8 @@ type stream[T any] struct {
 	fail   map[int]codes.Code
 	dead   error
 	fresh  func() *T
+	onFail func(idx int)
+	onMsg  func(*T)
 }
 
 func (s *stream[T]) Recv() (*T, error) {
@@ -221,6 +240,10 @@ func (s *stream[T]) Recv() (*T, error) {
 	}
 
 	if code, ok := s.fail[s.recvN]; ok {
+		if s.onFail != nil {
+			s.onFail(s.recvN)
+		}
+
 		s.recvN++
 		s.dead = status.Error(code, "verif: injected transport failure")
 		s.cancel() // the server side sees the stream context cancelled, as with a broken connection
@@ -236,6 +259,10 @@ func (s *stream[T]) Recv() (*T, error) {
 			s.dead = m.err
 
 			return nil, m.err
+		}
+
+		if s.onMsg != nil {
+			s.onMsg(m.msg)
 		}
 
 		return m.msg, nil
@@ -380,7 +407,36 @@ func (c *Client) Watch(ctx context.Context, in *v1alpha1.WatchRequest, _ ...grpc
 		return nil, err
 	}
 
-	return startStream(c, "Watch", ctx, func() *v1alpha1.WatchResponse { return &v1alpha1.WatchResponse{} }, fail, func(ss *serverStream[v1alpha1.WatchResponse]) error {
+	st := startStream(c, "Watch", ctx, func() *v1alpha1.WatchResponse { return &v1alpha1.WatchResponse{} }, fail, func(ss *serverStream[v1alpha1.WatchResponse]) error {
 		return c.Srv.Watch(req, ss)
-	}), nil
+	})
+
+	st.onMsg = func(m *v1alpha1.WatchResponse) {
+		if len(m.Event) == 0 {
+			return // establishment acknowledgement
+		}
+
+		c.mu.Lock()
+		c.delivered[n]++
+		c.lastBookmark[n] = m.Event[len(m.Event)-1].Bookmark
+		c.mu.Unlock()
+	}
+
+	st.onFail = func(idx int) {
+		c.mu.Lock()
+		defer c.mu.Unlock()
+
+		// the client's resume point: the last bookmark seen on any stream so far
+		var last []byte
+
+		for i := 0; i <= n; i++ {
+			if c.delivered[i] > 0 {
+				last = c.lastBookmark[i]
+			}
+		}
+
+		c.failHits = append(c.failHits, FailHit{Stream: n, Index: idx, LastBookmark: last, Delivered: c.delivered[n]})
+	}
+
+	return st, nil
 }
